@@ -98,8 +98,56 @@ def bookkeeping(chk, prop, evs, nshapes):
         chk.sample({k: e[k] for k in ("case", "alg", "nd", "kind", "fsd", "shape", "profile") if k in e})
 
 
+def cli_layer(chk, prop, w, profiles, replay=None):
+    """The command-line layer (spec/factor/Cli.tla): the model of main(), its input space, and real runs of the ymqs
+    binary built from the tree under test validated by CliTrace.tla (Prop selects the Strict predicate)."""
+    if replay and replay["event"].get("op") != "cli":
+        return
+    if not replay:
+        chk.add_mc(core.model_check("factor/Cli.tla", "MC_Cli.cfg", workers=2, timeout=300))
+        for c in ("MC_Cli_reach_answer.cfg", "MC_Cli_reach_fail.cfg"):
+            r = core.model_check("factor/Cli.tla", c, workers=1, timeout=300, expect_error=True)
+            chk.add_mc(r, invariants_expected_to_hold=False)
+            if not r["violated"]:
+                raise core.ToolError("Cli.tla: %s is vacuous (no run answers / fails)" % c)
+    shapes = os.path.join(w, "cli_shapes.ndjson")
+    nsh, r = core.gen_shapes("factor/CliShapes.tla", "CliShapes.cfg", shapes)
+    chk.add_mc(r)
+    ncli = 0
+    for profile in profiles:
+        bins = core.build_cli(profile)
+        trace = os.path.join(w, "cli_trace_%s.ndjson" % profile)
+        args = ["cli", "--bin", bins["ymqs"], "--shapes", shapes, "--seed", chk.seed, "--jobs", max(2, core.NCPU // 2)]
+        if replay:
+            args += ["--only", replay["event"]["case"]]
+        core.run_driver(args, trace, profile="release", timeout=3000)
+        evs = core.read_ndjson(trace)
+        for e in evs:
+            e["profile"] = profile
+        core.write_ndjson(trace, evs)
+        res = core.validate_trace("factor/CliTrace.tla", "CliTrace_%s.cfg" % prop, trace, timeout=900,
+                                  weight=lambda e: 4 + len(e.get("out", [])), tag="%s-cli-%s" % (prop.lower(), profile))
+        chk.add_tv(res)
+        ncli += len(evs)
+        why = {}
+        for e in evs:
+            why[e["why"]] = why.get(e["why"], 0) + 1
+        chk.cov["cli_outcomes_%s" % profile] = why
+        if not replay:
+            missing = {"usage", "answer", "number", "size", "verbosity", "mode"} - set(why)
+            if missing:
+                chk.notes.append({"vacuity": "command-line outcomes never seen", "outcomes": sorted(missing)})
+    chk.cov["cli_invocations"] = ncli
+    chk.cov["cli_shapes"] = nsh
+    chk.assumptions.append("command line: the exit status / stdout / first panic message of the ymqs process as read by the "
+                           "driver; argument classes (decimal or not, size class, option validity) are known by construction")
+
+
 def run_common(chk, replay, prop, profiles):
     w = core.workdir(prop.lower())
+    if replay and replay["event"].get("op") == "cli":
+        cli_layer(chk, prop, w, [replay["event"].get("profile", "release")], replay)
+        return
     if not replay:
         model_runs(chk, prop)
     # (I) input space
@@ -125,6 +173,8 @@ def run_common(chk, replay, prop, profiles):
         chk.add_tv(res)
         all_evs += evs
     bookkeeping(chk, prop, all_evs, nshapes)
+    if prop in ("C01", "C03"):
+        cli_layer(chk, prop, w, profiles, replay)
     chk.assumptions += [
         "TLC, SANY, CommunityModules Json/IOUtils/SequencesExt/FiniteSetsExt",
         "spec/lib/BigNat (self-tested against Python integers in setup)",
